@@ -188,6 +188,87 @@ def replay_const(p):
     return False, "helper agrees with general injection"
 
 
+def job_two_frames(kind, smear, order):
+    """two frames of different resolution used one after the other in one session, each with the same width in channels:
+    the helper on the second still equals general injection on the second (nothing carries over between frames)"""
+    recs = []
+    tag = f"C13:two-frames:{(kind, smear, order)}"
+    ga, gb = (inject.GEOMS[g] for g in (('g1', 'g2') if order == 0 else ('g2', 'g1')))
+    T, Fc, wch = 2, 6, 2.0
+    f0, d, lvl = (Sym(z3.Real(n)) for n in ('f_start', 'drift', 'level'))
+    fmin = gb['fch1'] - (Fc - 1) * gb['df']
+    pre = [f0.t >= RV(fmin), f0.t <= RV(gb['fch1']), d.t >= RV(-2 * gb['df'] / gb['dt']), d.t <= RV(2 * gb['df'] / gb['dt'])]
+
+    def run():
+        fa = make_frame(T, Fc, False, Sym(RV(ga['df'])), Sym(RV(ga['dt'])), Sym(RV(ga['fch1'])))
+        fa.add_constant_signal(ga['fch1'] - 2 * ga['df'], 0.0, 1.0, wch * ga['df'], f_profile_type=kind, doppler_smearing=smear)
+        fb = make_frame(T, Fc, False, Sym(RV(gb['df'])), Sym(RV(gb['dt'])), Sym(RV(gb['fch1'])))
+        h = fb.add_constant_signal(f0, d, lvl, wch * gb['df'], f_profile_type=kind, doppler_smearing=smear)
+        fc = make_frame(T, Fc, False, Sym(RV(gb['df'])), Sym(RV(gb['dt'])), Sym(RV(gb['fch1'])))
+        n = core.smax(1, core.ceil(abs(d) / fc.unit_drift_rate))
+        g = fc.add_signal(paths.constant_path(f0, d), t_profiles.constant_t_profile(lvl), profile_fn(kind, wch * gb['df']),
+                          bp_profiles.constant_bp_profile(level=1), doppler_smearing=smear, smearing_subsamples=n)
+        return h, g, fb
+    with frame_patches():
+        leaves = core.explore(run, pre, cap=2000)
+    conds, ncex = [], 0
+    for li, leaf in enumerate(leaves):
+        conds.append(leaf.cond())
+        name = f"{tag}:leaf{li}"
+        base = pre + leaf.pc + leaf.side
+        pl = lambda m: dict(fn='two_frames', kind=kind, smear=smear, order=order, f_start=core.model_float(m, f0), drift=core.model_float(m, d), level=core.model_float(m, lvl))
+        if leaf.kind == 'exc':
+            r, m = core.check(base, timeout_ms=30000)
+            recs.append(q(name + ':noexc', r, detail=repr(leaf.value)))
+            if r == 'sat' and ncex < 2:
+                ncex += 1
+                recs.append(cex('C13:two-frames:raise', f'helper / general injection raised {leaf.value!r}', pl(m), name=name + ':noexc'))
+            continue
+        h, g, fb = leaf.value
+        dis = []
+        fs, ts = [lift(x) for x in fb.fs], [lift(x) for x in fb.ts]
+        for i in range(T):
+            c0 = f0.t + d.t * ts[i]
+            c1 = f0.t + d.t * (ts[i] + RV(gb['dt']))
+            for j in range(Fc):
+                diff = z3.simplify(lift(h[i, j]) - lift(g[i, j]), som=True)
+                if z3.is_rational_value(diff) and diff.numerator_as_long() == 0:
+                    continue
+                if kind in COMPACT:
+                    dis.append(diff != 0)
+                else:
+                    lo = z3.If(c0 <= c1, c0, c1) if smear else c0
+                    hi = z3.If(c0 <= c1, c1, c0) if smear else c0
+                    dist = z3.If(fs[j] < lo, lo - fs[j], z3.If(fs[j] > hi, fs[j] - hi, RV(0)))
+                    dis.append(z3.And(dist <= RV(wch * gb['df']) * HALF_FWHM[kind], diff != 0))
+        if not dis:
+            recs.append(q(name, 'unsat', trivial=True))
+            continue
+        r, m = core.check(base + [z3.Or(*dis)], timeout_ms=60000)
+        recs.append(q(name, r))
+        if r == 'sat' and ncex < 2:
+            ncex += 1
+            recs.append(cex('C13:two-frames', f'after the helper was used on a frame of another resolution, helper and general injection differ on this frame ({kind}, smearing={smear})', pl(m), name=name))
+    r, _ = core.check(pre + [z3.Not(z3.Or(*conds))], timeout_ms=60000)
+    recs.append(q(f"{tag}:split-complete", r, leaves=len(leaves)))
+    return recs
+
+
+def replay_two_frames(p):
+    import setigen as stg
+    ga, gb = (inject.GEOMS[g] for g in (('g1', 'g2') if p['order'] == 0 else ('g2', 'g1')))
+    kind, smear, wch = p['kind'], p['smear'], 2.0
+    fa = stg.Frame(fchans=12, tchans=3, df=ga['df'], dt=ga['dt'], fch1=ga['fch1'], seed=0)
+    fa.add_constant_signal(ga['fch1'] - 2 * ga['df'], 0.0, 1.0, wch * ga['df'], f_profile_type=kind, doppler_smearing=smear)
+    pb = dict(T=3, Fc=12, df=gb['df'], dt=gb['dt'], fch1=gb['fch1'], asc=False, kind=kind, smear=smear, level=p.get('level') or 1.5, width=wch * gb['df'])
+    msgs = []
+    for (f0, d) in [(p['f_start'], p['drift'])] + [(gb['fch1'] - 5 * gb['df'], s_ * 1.5 * gb['df'] / gb['dt']) for s_ in (0, 1, -1)]:
+        bad, msg = replay_const(dict(pb, f_start=f0, drift=d))
+        if bad:
+            msgs.append(msg)
+    return bool(msgs), (msgs[0] if msgs else 'helper agrees with general injection on the second frame')
+
+
 def job_units(T, Fc, asc, kind, smear, dsign):
     """the helper called with unit-carrying arguments (MHz, kHz / s, kHz) returns what it returns for the same values in
     SI numbers (that those equal the general injection is the subject of the other jobs)"""
@@ -265,7 +346,7 @@ def replay_units(p):
     return bool(msgs), '; '.join(msgs[:2]) or 'unit-carrying arguments agree with plain numbers'
 
 
-REPLAYS = {'const': replay_const, 'units': replay_units}
+REPLAYS = {'const': replay_const, 'units': replay_units, 'two_frames': replay_two_frames}
 
 
 def main():
@@ -293,6 +374,9 @@ def main():
                     for smear in (False, True):
                         for dsign in (-1, 0, 1):
                             jobs.append(('job', (T, Fc, asc, kind, smear, geom, ck.tier, dsign)))
+    for kind in PROFILES:
+        for order in (0, 1):
+            jobs.append(('job_two_frames', (kind, kind in ('box', 'gaussian'), order)))
     for kind in (('box', 'gaussian') if not ck.thorough else PROFILES):
         for smear in (False, True):
             for dsign in (-1, 0, 1):
